@@ -56,7 +56,7 @@ def _run_task(task):
         if obl.kind == "crosshair":
             from .core import explore
             r = explore(obl.harness, shard, cpu_budget=obl.cpu_budget.get(tier, 60.0),
-                        per_path_timeout=obl.per_path_timeout, seed=seed)
+                        per_path_timeout=obl.per_path_timeout, seed=seed, soft_signatures=sorted(load_known(prop)))
         else:
             r = obl.run(shard, tier)
             r.setdefault("violations", [])
@@ -87,7 +87,15 @@ def replay_file(path: str) -> int:
         if obl.replay is not None:
             obl.replay(rec["witness"], rec.get("shard") or {})
         else:
-            obl.harness(ReplaySym(rec["witness"], rec.get("shard") or {}))
+            rs = ReplaySym(rec["witness"], rec.get("shard") or {})
+            # known findings other than the one being replayed do not end the run (same rule as in the symbolic run)
+            rs.soft_signatures = set(load_known(rec["property"])) - {rec.get("signature")}
+            obl.harness(rs)
+            want = [v for v in rs.soft if v.signature == rec.get("signature")]
+            if want:
+                raise want[0]
+            if rs.soft and rec.get("signature") == "sample":
+                raise rs.soft[0]
     except Violation as v:
         print(f"REPRODUCED signature={v.signature} detail={v.detail}")
         return 0
@@ -197,13 +205,13 @@ def main(argv=None) -> int:
     # ---- collect ---------------------------------------------------------------------------
     by_obl = {o.name: {"shards": 0, "paths": 0, "reached_paths": 0, "assertions": 0, "unknown_paths": 0, "exhausted_shards": 0,
                        "budget_hit_shards": 0, "solver_checks": 0, "solver_s": 0.0, "cpu_s": 0.0, "queries": 0,
-                       "unsat": 0, "sat": 0, "unknown": 0, "samples": [], "table_rows": 0, "decisions": 0} for o in obls}
+                       "unsat": 0, "sat": 0, "unknown": 0, "samples": [], "table_rows": 0, "decisions": 0, "realizations": 0} for o in obls}
     violations, errors = [], []
     for r in results:
         b = by_obl[r["obligation"]]
         b["shards"] += 1
         for k in ("paths", "reached_paths", "assertions", "unknown_paths", "solver_checks", "queries", "unsat", "sat", "unknown",
-                  "table_rows", "decisions"):
+                  "table_rows", "decisions", "realizations"):
             b[k] += int(r.get(k, 0) or 0)
         b["solver_s"] += float(r.get("solver_s", 0) or 0)
         b["cpu_s"] += float(r.get("cpu_s", 0) or 0)
